@@ -242,8 +242,10 @@ def shard_crop(arg):
 
 
 # --------------------------------------------------------------------- splits
-GAP_T = (0.5, 1.0, 2.0)
-GAP_D = (1.0, 2.0, 4.0)
+# the last entries exceed a threshold value by 2^-20 (about 1e-6): such a
+# step IS a gap for the thresholds 1.0 / 2.0 (strict comparison)
+GAP_T = (0.5, 1.0, 2.0, 1.0 + 2.0**-20)
+GAP_D = (1.0, 2.0, 4.0, 2.0 + 2.0**-20)
 
 
 def split_traj(steps):
@@ -406,9 +408,9 @@ def run(ctx):
     acc.merge(pmap_acc(ctx, __name__, "shard_motion", shard(mseqs, 64)))
     acc.merge(pmap_acc(ctx, __name__, "shard_crop",
                        [[n] for n in range(1, 7)]))
-    sl = ctx.pick(4, 5)
+    sl = ctx.pick(3, 4)
     sseqs = [s for k in range(1, sl + 1) for s in itertools.product(
-        itertools.product(range(3), range(3)), repeat=k)]
+        itertools.product(range(len(GAP_T)), range(len(GAP_D))), repeat=k)]
     acc.merge(pmap_acc(ctx, __name__, "shard_split", shard(sseqs, 64)))
     mjobs = []
     for ntraj in (1, 2, 3):
